@@ -362,3 +362,76 @@ Proof.
   rewrite E. cbn [bind]. unfold wr. cbn [length] in L.
   destruct (Z.of_nat (length (strip_main (S (length s)) (cstr s) [])) <=? Z.of_nat (length s)) eqn:W; [reflexivity|lia].
 Qed.
+
+(* ---------- the reference machine against the grammar of JsonSpec.strips ---------- *)
+Lemma ref_instring_lit l : lit_body l -> forall s, ref InString (l ++ 34 :: s) = l ++ 34 :: ref Normal s.
+Proof.
+  induction 1 as [|c t H1 H2 _ IH|e t _ IH]; intros s.
+  - reflexivity.
+  - cbn [app reference_strip_from]. destruct (c =? 92) eqn:E1; [lia|]. destruct (c =? 34) eqn:E2; [lia|].
+    rewrite IH. reflexivity.
+  - cbn [app reference_strip_from Z.eqb Pos.eqb]. rewrite IH. reflexivity.
+Qed.
+
+Lemma ref_instring_open l : lit_open l -> ref InString l = l.
+Proof.
+  induction 1 as [| |c t H1 H2 _ IH|e t _ IH].
+  - reflexivity.
+  - reflexivity.
+  - cbn [reference_strip_from]. destruct (c =? 92) eqn:E1; [lia|]. destruct (c =? 34) eqn:E2; [lia|].
+    rewrite IH. reflexivity.
+  - cbn [reference_strip_from Z.eqb Pos.eqb]. rewrite IH. reflexivity.
+Qed.
+
+Lemma ref_line b : no_break b = true -> forall s, (s = [] \/ brk (hd0 s) = true) ->
+  ref LineComment (b ++ s) = ref Normal s.
+Proof.
+  induction b as [|c t IH]; intros Hb s Hs.
+  - cbn [app]. destruct Hs as [->|Hs]; [reflexivity|].
+    destruct s as [|c t]; [reflexivity|]. cbn [hd0] in Hs. cbn [reference_strip_from]. rewrite Hs.
+    unfold brk in Hs. destruct (c =? 34) eqn:E1; [lia|]. destruct (c =? 47) eqn:E2; [lia|]. reflexivity.
+  - cbn [no_break forallb] in Hb. apply andb_prop in Hb. destruct Hb as [Hc Ht].
+    cbn [app reference_strip_from]. destruct (brk c); [discriminate|]. apply IH; assumption.
+Qed.
+
+Lemma hd0_app_close t s : hd0 t <> 47 -> hd0 (t ++ 42 :: 47 :: s) <> 47.
+Proof. destruct t; cbn [app hd0]; lia. Qed.
+
+Lemma ref_block b : no_close b = true -> forall s, ref BlockComment (b ++ 42 :: 47 :: s) = filter brk b ++ ref Normal s.
+Proof.
+  induction b as [|c t IH]; intros Hb s.
+  - reflexivity.
+  - cbn [no_close] in Hb. apply andb_prop in Hb. destruct Hb as [Hc Ht]. cbn [app].
+    destruct (c =? 42) eqn:E.
+    + assert (c = 42) by lia. subst c. assert (H47 : hd0 t <> 47) by lia.
+      rewrite ref_block_star by (apply hd0_app_close; exact H47).
+      rewrite IH by exact Ht. reflexivity.
+    + cbn [reference_strip_from]. rewrite E. cbn [filter]. destruct (brk c); cbn [app]; rewrite IH by exact Ht; reflexivity.
+Qed.
+
+Lemma ref_block_open b : no_close b = true -> ref BlockComment b = filter brk b.
+Proof.
+  induction b as [|c t IH]; intros Hb; [reflexivity|].
+  cbn [no_close] in Hb. apply andb_prop in Hb. destruct Hb as [Hc Ht].
+  destruct (c =? 42) eqn:E.
+  - assert (c = 42) by lia. subst c. rewrite ref_block_star by lia. rewrite IH by exact Ht. reflexivity.
+  - cbn [reference_strip_from]. rewrite E. cbn [filter]. destruct (brk c); rewrite IH by exact Ht; reflexivity.
+Qed.
+
+Lemma strips_sound s o : strips s o -> reference_strip s = o.
+Proof.
+  unfold reference_strip. induction 1 as [|c s o H1 H2 _ IH|l s o Hl _ IH|l Hl|b s o Hb Hs _ IH|b s o Hb _ IH|b Hb].
+  - reflexivity.
+  - rewrite ref_normal_plain by assumption. rewrite IH. reflexivity.
+  - change (ref Normal (34 :: l ++ 34 :: s)) with (34 :: ref InString (l ++ 34 :: s)).
+    rewrite ref_instring_lit by exact Hl. rewrite IH. reflexivity.
+  - change (ref Normal (34 :: l)) with (34 :: ref InString l). rewrite ref_instring_open by exact Hl. reflexivity.
+  - change (ref Normal (47 :: 47 :: b ++ s)) with (ref LineComment (b ++ s)).
+    rewrite ref_line by assumption. exact IH.
+  - change (ref Normal (47 :: 42 :: b ++ 42 :: 47 :: s)) with (ref BlockComment (b ++ 42 :: 47 :: s)).
+    rewrite ref_block by exact Hb. rewrite IH. reflexivity.
+  - change (ref Normal (47 :: 42 :: b)) with (ref BlockComment b). apply ref_block_open. exact Hb.
+Qed.
+
+Lemma strip_comments_follows_grammar s o : strips (cstr s) o -> strip_comments s = o.
+Proof. intros H. rewrite strip_comments_is_reference. apply strips_sound. exact H. Qed.
